@@ -399,6 +399,92 @@ def run(model: RepoModel, rep, tier: str):
         else:
             rep.holds("C04.R6", key, FILE, h.node.lineno, f"{len(frontier_vars)} frontier variable(s); no filter, no drop, no mutation under forward iteration")
 
+    # every body analysed by a handler gets a special-statement list (the handler's own parameter or a fresh one it resolves):
+    # without it the walker falls back to its shared default list and a break/continue inside that body is never connected
+    for hn in sorted({h.name for h in reg.handlers.values()}):
+        h = cfa.methods[hn]
+        calls = [c for c in walk_no_nested(h.node) if isinstance(c, ast.Call) and is_self_attr(c.func) and c.func.attr in ("analyze_block", "analyze_init_block")]
+        if not calls:
+            continue
+        short = [c for c in calls if len(c.args) < 3 and not any(k.arg and "special" in k.arg for k in c.keywords)]
+        key = f"{FILE}::{h.qualname}::every analysed body receives a special-statement list"
+        if short:
+            rep.violation("C04.R4", key, FILE, short[0].lineno,
+                          f"{h.qualname} analyses a body with `{norm(short[0])[:90]}` and passes no special-statement list: a break/continue/"
+                          f"return-like statement inside that body is pushed on the walker's shared default list, which nobody resolves -- it "
+                          f"gets no edge to the statement after the enclosing loop")
+        else:
+            rep.holds("C04.R4", key, FILE, h.node.lineno, f"{len(calls)} body call(s), each with a special-statement list")
+
+    # ------------------------------------------------------------------ R8 protocols between the loop resolver and its callers
+    rep.rule("C04.R8", "list protocols of the CFG builder: a frontier handed to a handler is never mutated in place (it belongs to the caller, "
+                       "or is the shared default list of the block walkers), and the loop resolver appends the loop-false exit last, which is "
+                       "what its caller pops when the loop has an else body", 8)
+    MUT = ("append", "extend", "insert", "pop", "remove", "clear", "sort", "reverse")
+    for f in cfa.methods.values():
+        # frontier parameters by role: passed as the parents to link_parent_stmts_to_current_stmt, or as the frontier of analyze_block
+        fps = set()
+        # plain aliases of a parameter (`previous = parent_stmts`) are the same list
+        alias_of = {n.targets[0].id: n.value.id for n in walk_no_nested(f.node) if isinstance(n, ast.Assign) and isinstance(n.targets[0], ast.Name)
+                    and isinstance(n.value, ast.Name) and n.value.id in f.params}
+        for c in walk_no_nested(f.node):
+            if isinstance(c, ast.Call) and is_self_attr(c.func):
+                for i_, a_ in enumerate(c.args[:2]):
+                    if isinstance(a_, ast.Name) and a_.id in alias_of and ((c.func.attr == "link_parent_stmts_to_current_stmt" and i_ == 0)
+                                                                            or (c.func.attr in ("analyze_block", "analyze_init_block") and i_ == 1)):
+                        fps.add(alias_of[a_.id])
+                        fps.add(a_.id)
+                if c.func.attr == "link_parent_stmts_to_current_stmt" and c.args and isinstance(c.args[0], ast.Name) and c.args[0].id in f.params:
+                    fps.add(c.args[0].id)
+                if c.func.attr in ("analyze_block", "analyze_init_block") and len(c.args) > 1 and isinstance(c.args[1], ast.Name) and c.args[1].id in f.params:
+                    fps.add(c.args[1].id)
+        if not fps:
+            continue
+        bad = []
+        for n in walk_no_nested(f.node):
+            if isinstance(n, ast.Call) and isinstance(n.func, ast.Attribute) and n.func.attr in MUT and isinstance(n.func.value, ast.Name) and n.func.value.id in fps:
+                bad.append(n)
+            if isinstance(n, ast.AugAssign) and isinstance(n.target, ast.Name) and n.target.id in fps:
+                bad.append(n)
+            if isinstance(n, ast.Delete) and any(isinstance(t, ast.Subscript) and isinstance(t.value, ast.Name) and t.value.id in fps for t in n.targets):
+                bad.append(n)
+            if isinstance(n, ast.Assign) and any(isinstance(t, ast.Subscript) and isinstance(t.value, ast.Name) and t.value.id in fps for t in n.targets):
+                bad.append(n)
+        key = f"{FILE}::{f.qualname}::the incoming frontier is not mutated"
+        if bad:
+            rep.violation("C04.R8", key, FILE, bad[0].lineno,
+                          f"{f.qualname} changes the frontier list it was given in place (`{norm(bad[0])[:80]}`): the list belongs to the caller -- "
+                          f"for a method without parameters it is the shared default `[]` of the block walker -- so the added node leaks into "
+                          f"the statements analysed afterwards (edges from this statement into other blocks or other methods)")
+        else:
+            rep.holds("C04.R8", key, FILE, f.node.lineno, f"frontier parameter(s) {sorted(fps)} only read / copied")
+    # the loop-false exit is the last thing added to the resolver's result
+    dcfg = cfg_of(dl.node)
+    rets = {x.id for n in walk_no_nested(dl.node) if isinstance(n, ast.Return) and n.value is not None for x in ast.walk(n.value) if isinstance(x, ast.Name)}
+    muts = [n for n in dcfg.g.nodes for c in dcfg.calls_at(n) if isinstance(c.func, ast.Attribute) and c.func.attr in ("append", "extend", "insert")
+            and isinstance(c.func.value, ast.Name) and c.func.value.id in rets]
+    lf = [n for n in muts for c in dcfg.calls_at(n) if any(isinstance(x, ast.Attribute) and x.attr == "LOOP_FALSE" for x in ast.walk(c))]
+    consumers = [(f, c) for f in cfa.methods.values() for c in walk_no_nested(f.node)
+                 if isinstance(c, ast.Call) and isinstance(c.func, ast.Attribute) and c.func.attr == "pop" and not c.args and isinstance(c.func.value, ast.Name)
+                 and any(isinstance(a, ast.Assign) and isinstance(a.targets[0], ast.Name) and a.targets[0].id == c.func.value.id
+                         and isinstance(a.value, ast.Call) and is_self_attr(a.value.func, dl.name) for a in walk_no_nested(f.node))]
+    key = f"{FILE}::{dl.qualname}::the loop-false exit is appended last"
+    if not consumers:
+        rep.holds("C04.R8", key, FILE, dl.node.lineno, "no caller pops the resolver's result by position")
+    elif not lf:
+        rep.unknown("C04.R8", key, FILE, dl.node.lineno, "the loop-false exit is not appended to the returned list in a recognised way")
+    else:
+        later = [m_ for m_ in muts if m_ not in lf and any(m_ in dcfg.reachable(l) for l in lf)]
+        front = [c for l in lf for c in dcfg.calls_at(l) if isinstance(c.func, ast.Attribute) and c.func.attr == "insert"]
+        if later or front:
+            w = later[0] if later else lf[0]
+            rep.violation("C04.R8", key, FILE, dcfg.stmt[w].lineno,
+                          f"{consumers[0][0].name} removes the loop-false exit from the resolver's result with pop() (the last element), but "
+                          f"{dl.name} adds other nodes after it (line {dcfg.stmt[w].lineno}): for a loop with an else body a `break` is popped "
+                          f"instead and loses its only outgoing edge")
+        else:
+            rep.holds("C04.R8", key, FILE, dcfg.stmt[lf[0]].lineno, f"nothing is added to the result after the LOOP_FALSE node; popped by {consumers[0][0].name}")
+
     # ------------------------------------------------------------------ R7 (cross-cutting accumulator discipline, sa/generic.py)
     from ..generic import check_accumulators
     check_accumulators(model, rep, "C04.R7", [FILE], C04_ADJUDICATED,
@@ -467,6 +553,18 @@ C04_ADJUDICATED = {
 }
 
 MUTANTS = [
+    ("else-body-without-special-list", FILE,
+     lambda src: __import__("sa.mutate", fromlist=["x"]).text_replace(src, "                last_stmts_of_else_body = self.analyze_block(else_body, last_stmts_of_else_body, global_special_stmts)",
+                                                                     "                last_stmts_of_else_body = self.analyze_block(else_body, last_stmts_of_else_body)"),
+     "analyze_if_stmt::every analysed body receives a special-statement list"),
+    ("dowhile-mutates-callers-frontier", FILE,
+     lambda src: __import__("sa.mutate", fromlist=["x"]).text_replace(src, "        previous = parent_stmts[:]\n        previous.append(\n            CFGNode(current_stmt, CONTROL_FLOW_KIND.LOOP_TRUE)\n        )\n",
+                                                                     "        parent_stmts.append(CFGNode(current_stmt, CONTROL_FLOW_KIND.LOOP_TRUE))\n        previous = parent_stmts\n"),
+     "analyze_dowhile_stmt::the incoming frontier is not mutated"),
+    ("loop-false-exit-first", FILE,
+     lambda src: __import__("sa.mutate", fromlist=["x"]).text_replace(src, "        result = []\n        for counter in reversed(range(len(special_stmts))):",
+                                                                     "        result = []\n        result.append(CFGNode(current_stmt, CONTROL_FLOW_KIND.LOOP_FALSE))\n        for counter in reversed(range(len(special_stmts))):"),
+     "the loop-false exit is appended last"),
     ("switch-stops-after-first-case", FILE,
      lambda src: __import__("sa.mutate", fromlist=["x"]).text_replace(src, "            last_stmts_of_previous_body = self.analyze_block(case_body, last_stmts_of_previous_body, special_stmts)\n",
                                                                      "            last_stmts_of_previous_body = self.analyze_block(case_body, last_stmts_of_previous_body, special_stmts)\n            if not last_stmts_of_previous_body:\n                break\n"),
